@@ -525,6 +525,14 @@ pub fn run(ctx: &Ctx) -> Report {
     };
     if let Some(path) = &ctx.replay {
         let v: Value = load_replay_case(path);
+        if v["family"] == "ST" {
+            if let Err(e) = sched_tx_family(ctx, &cons, &txu, &mut forge, &sched_monitor, &mut report, Some(&v)) {
+                report.machinery_errors.push(e);
+            }
+            report.outcomes.insert(0);
+            report.outcomes.insert(1);
+            return report;
+        }
         if v["family"] == "S" {
             drop(forge);
             crate::props::c01::sched_family_with_monitor(ctx, &mut report, &sched_monitor, Some(&v));
@@ -546,6 +554,10 @@ pub fn run(ctx: &Ctx) -> Report {
     if ctx.replay.is_none() {
         crate::props::c01::sched_family_with_monitor(ctx, &mut report, &sched_monitor, None);
         if !report.machinery_errors.is_empty() {
+            return report;
+        }
+        if let Err(e) = sched_tx_family(ctx, &cons, &txu, &mut forge, &sched_monitor, &mut report, None) {
+            report.machinery_errors.push(format!("family ST: {e}"));
             return report;
         }
     }
@@ -596,4 +608,76 @@ pub fn run(ctx: &Ctx) -> Report {
     report.count("forge_boots", forge.boots as u64);
     drop(forge);
     report
+}
+
+
+// ---------------------------------------------------------------------------------------
+// Family ST: thread schedules over transaction-bearing reorganisations.  The common prefix of a
+// designed universe is delivered the ordinary way; then the scheduler takes over the chain
+// service's three threads, the blocks of both branches are queued, and every schedule up to the
+// preemption bound is executed.  At every cut the published snapshot is judged on its own (live
+// cells, cell data, number index, tx-info, uncles, stored tip, epoch, MMR against a replay of the
+// chain its tip field announces).
+
+fn sched_tx_subjects(tier: Tier, built: &Built, ui: usize) -> Vec<crate::props::c01::SchedSubject> {
+    use crate::props::c01::{Materialised, SchedSubject};
+    let p = built.prefix.len();
+    let (na, nb) = (built.a.len(), built.b.len());
+    let mut blocks = built.prefix.clone();
+    blocks.extend(built.a.iter().cloned());
+    blocks.extend(built.b.iter().cloned());
+    let mut pv: Vec<usize> = (0..p).collect();
+    for k in 0..na {
+        pv.push(p + k);
+    }
+    for k in 0..nb {
+        pv.push(if k == 0 { p } else { p + na + k });
+    }
+    let a = |k: usize| p + k;
+    let b = |k: usize| p + na + k;
+    let mut seqs: Vec<(Vec<usize>, usize, &str)> = vec![(vec![a(0), b(0), b(1)], 1, "A0 B0 B1")];
+    if tier.is_thorough() {
+        seqs.push((vec![b(0), a(0), a(1)], 1, "B0 A0 A1"));
+        seqs.push((vec![a(0), a(1), b(0), b(1), b(2)], 1, "A0 A1 B0 B1 B2"));
+        seqs.push((vec![a(0), b(0), b(1)], 2, "A0 B0 B1"));
+    }
+    seqs.into_iter()
+        .map(|(seq, bound, names)| SchedSubject {
+            m: Materialised { blocks: blocks.clone(), self_valid: vec![true; blocks.len()] },
+            pv: pv.clone(),
+            pre: (0..p).collect(),
+            seq,
+            bound,
+            label: json!({"designed_universe": ui, "queued": names, "bound": bound}),
+            family: "ST",
+        })
+        .collect()
+}
+
+fn sched_tx_family(ctx: &Ctx, cons: &Consensus, txu: &TxUniverse, forge: &mut Forge, monitor: &dyn Fn(&Node) -> Vec<(String, String)>, report: &mut Report, replay: Option<&Value>) -> Result<(), String> {
+    let mut idx = 100_000u64;
+    for (ui, (uspec, _)) in designed().iter().enumerate().take(2) {
+        if let Some(v) = replay {
+            if v["designed_universe"].as_u64() != Some(ui as u64) {
+                continue;
+            }
+        }
+        let built = build_universe(forge, cons, txu, uspec)?;
+        for sub in sched_tx_subjects(if replay.is_some() { Tier::Thorough } else { ctx.tier }, &built, ui) {
+            idx += 1_000;
+            if let Some(v) = replay {
+                if v["queued"] != sub.label["queued"] || v["bound"] != sub.label["bound"] {
+                    continue;
+                }
+                let schedule: Vec<usize> = serde_json::from_value(v["schedule"].clone()).map_err(|e| e.to_string())?;
+                return crate::props::c01::explore_subject(ctx, cons, &sub, 0, report, Some(schedule), Some(monitor), Some("cut/"));
+            }
+            if ctx.out_of_time() {
+                report.cap_hit = Some("wall budget reached in family ST".into());
+                return Ok(());
+            }
+            crate::props::c01::explore_subject(ctx, cons, &sub, idx, report, None, Some(monitor), Some("cut/"))?;
+        }
+    }
+    Ok(())
 }
